@@ -6,6 +6,9 @@
              mul_expr   = infixl(mul_op, unary_expr)    mul_op = '*' | '/'
              unary_expr = dispatch{'-' => '-' value_expr, _ => value_expr}
              infixl(op, x) = separated_foldl1(x, space0 op space0, Binary)
+   Since fix ac8b801 value_expr carries the number of enclosing parentheses and refuses to
+   nest deeper than MAX_EXPR_DEPTH = 100; the model has no such bound (token lists of the
+   correspondence run stay far below it; the bound itself belongs to C06).
    Every failure inside is a backtracking one (there is no cut_err), so one PFail suffices.
    Characters and blanks are the business of the text-level parser (property C05); the
    correspondence run lexes the generated text and checks this model against the real parser. *)
